@@ -71,7 +71,9 @@ PLANS = [
     {"plan": ["ünï", "日本"], "rationale": "unicode ✓"},
 ]
 WRAPS = ["plain", "fenced_json", "fenced_none", "fenced_py", "prose_before", "prose_after", "two_objects", "torn", "oversized", "nan", "nested_deep", "empty",
-         "nested_obj", "nested_in_plan", "nested_fenced", "nested_open", "bigint", "bigexp", "surrogate", "bom", "nul", "dup_keys"]
+         "nested_obj", "nested_in_plan", "nested_fenced", "nested_open", "bigint", "bigexp", "surrogate", "bom", "nul", "dup_keys",
+         # something AFTER a well-formed fenced block: prose, a second block, a stray fence, a lot of junk
+         "fenced_then_prose", "two_fenced", "fenced_then_fence", "fenced_then_junk", "fenced_then_object"]
 TRANSPORT = ["ok", "ok", "ok", "urlerror", "timeout", "non_utf8", "not_json_envelope", "response_not_string", "torn_envelope", "stall", "http_500"]
 
 
@@ -187,6 +189,16 @@ def _text(step: Dict[str, Any]) -> str:
     depth = 1200 + (int(step.get("cut", 0)) % 7) * 1100   # 1200 .. 7800 levels, all under the 20000 character guard
     if w == "fenced_json":
         txt = "```json\n%s\n```" % txt
+    elif w == "fenced_then_prose":
+        txt = "```json\n%s\n```\nHope this helps." % txt
+    elif w == "two_fenced":
+        txt = "```json\n%s\n```\n```json\n%s\n```" % (txt, json.dumps({"plan": ["something else"], "rationale": "second block"}))
+    elif w == "fenced_then_fence":
+        txt = "```\n%s\n```\n```" % txt
+    elif w == "fenced_then_junk":
+        txt = "```jsonc\n%s\n```\n%s" % (txt, "junk " * (200 + int(step.get("cut", 0)) % 2000))
+    elif w == "fenced_then_object":
+        txt = "```json\n%s\n```\n%s" % (txt, json.dumps({"plan": ["another"], "rationale": "bare object after the fence"}))
     elif w == "fenced_none":
         txt = "```\n%s\n```" % txt
     elif w == "fenced_py":
